@@ -7,7 +7,7 @@
    email.message.EmailMessage, pathlib.  The model owns only the logic that lives in metadata.py. *)
 From Coq Require Import List NArith Bool String.
 Import ListNotations.
-Require Import Show Names SpecModel VMeaning MetaTable.
+Require Import Show Names SpecModel VMeaning MetaTable MetaBase.
 Open Scope N_scope.
 
 (* ---------------------------------------------------------------- values *)
@@ -15,17 +15,6 @@ Inductive rawv := VStr (s : list N) | VList (l : list (list N)) | VDict (d : lis
 Inductive enr := ENone | EStr (s : list N) | EList (l : list (list N)) | EDict (d : list (list N * list N)).
 (* result of one attribute read: a value, InvalidMetadata(field, ...), or a Python-level failure outside the documented contract *)
 Inductive res := Ok (e : enr) | Invalid (field : list N) | Crash (what : list N).
-
-Fixpoint lookup {V} (k : list N) (d : list (list N * V)) : option V :=
-  match d with [] => None | (k', v) :: t => if seqb k' k then Some v else lookup k t end.
-Fixpoint remove {V} (k : list N) (d : list (list N * V)) : list (list N * V) :=
-  match d with [] => [] | (k', v) :: t => if seqb k' k then remove k t else (k', v) :: remove k t end.
-Definition mem (s : list N) (l : list (list N)) : bool := existsb (seqb s) l.
-Fixpoint index_of (v : list N) (l : list (list N)) : option nat :=
-  match l with [] => None | x :: t => if seqb x v then Some O else option_map S (index_of v t) end.
-Fixpoint opt_all {A} (l : list (option A)) : option (list A) :=
-  match l with [] => Some [] | Some a :: t => option_map (cons a) (opt_all t) | None :: _ => None end.
-Definition is_some {A} (o : option A) : bool := match o with Some _ => true | None => false end.
 
 (* ---------------------------------------------------------------- the field table (Gen/MetaTable.v) *)
 Definition k_mv := asc "metadata_version".
